@@ -17,7 +17,7 @@ STRATEGIES = ["build", "block", "bfs", "dfs", "scc", "attr"]
 
 
 def cases(tier, seed):
-    cl = [("rand", 3), ("rand-wide", 2), ("dense-neg", 3), ("gadget", 4), ("inputs", 2), ("overlap-maa", 0.3), ("rings", 2)]
+    cl = [("rand", 3), ("rand-wide", 2), ("dense-neg", 3), ("gadget", 4), ("inputs", 2), ("overlap-maa", 0.3), ("rings", 2), ("cond-maa", 3)]
     if tier == "quick":
         return std_cases(seed, "C01", 4500, cl, 7, exh2=True, models_nmax=9)
     return std_cases(seed, "C01", 30000, cl, 9, exh2=True, models_nmax=12)
